@@ -1,4 +1,6 @@
 import RosuModel.Model.PipelineMania
+import RosuModel.Model.PipelineTaiko
+import RosuModel.Model.TaikoPreWire
 import RosuModel.Model.SkillWire
 import RosuModel.Model.SliderEventsWire
 
@@ -88,5 +90,98 @@ def handlePIPE (mode bytes mods rate take : String) : String :=
           " G" ++ SliderEvents.showLong (vals.map showStep)
         | _ => ""
     showOut one ++ grad
+
+/-! ## osu!taiko -/
+
+open Rosu.PipelineTaiko Rosu.TaikoSkill in
+def ieeeTOps : TOps Float where
+  dec64 := fOf
+  keyOf x := Rosu.Decode.keyOfBits64 x.toBits.toNat
+  totalLe x y := Rosu.Decode.keyOfBits64 x.toBits.toNat ≤ Rosu.Decode.keyOfBits64 y.toBits.toNat
+  inf := Float.ofBits 0x7FF0000000000000
+
+def hexN (x : Float) : String := if x.isNaN then "nan" else natToHex16 (bitsOf x)
+def optHex (x : Option Float) : String := match x with | some v => hexN v | none => "-"
+def optNat (x : Option Nat) : String := match x with | some v => toString v | none => "-"
+
+/-- one record in the field order of the `TSKILL` request (NaNs as `nan`) -/
+def showTRec (o : Rosu.TaikoSkill.TObj Float) : String :=
+  let d := o.data
+  let mf := match d.monoFirst with
+    | none => "-:-:-"
+    | some (m, none) => s!"{m}:-:-"
+    | some (m, some (a, r)) => s!"{m}:{a}:{optNat r}"
+  let af := match d.altFirst with
+    | none => "-:-"
+    | some (a, r) => s!"{a}:{optNat r}"
+  let rh := match d.rhythmFirst with
+    | none => "-"
+    | some g =>
+      let ch := if g.chain.isEmpty then "e" else joinWith "/" (g.chain.map fun x => match x with | some v => hexN v | none => "n")
+      s!"{hexN g.intervalRatio}:{g.len}:{optHex g.duration}:{ch}"
+  joinWith "," [hexN o.startTime, hexN d.deltaTime, (if d.isHit then "1" else "0"), hexN d.effectiveBpm, hexN d.ratio,
+    optHex d.prevStart, optHex d.prev2Start, toString d.monoIndex, optHex d.prevMono2, optHex d.prevMono8,
+    optHex d.prevColorChange, optHex d.nextColorChange, mf, af, optNat d.repFirst, rh, optHex d.patternFirstRatio]
+
+/-- `TREC <clock rate> <k:time;…> <effective_bpm;…>`: TAIKO's preprocessing model on the real
+`TaikoObject`s, mapped through `trecOfPre` → the records, to be compared with the records the hook
+`taiko::verif::skill_trace` dumps from the real object graph (the interface check) -/
+def handleTREC (clock objs bpms : String) : String :=
+  let os := Rosu.TaikoPre.parseObjs objs
+  let bs := (splitList bpms ";").map fun t => fOf (hexToNat t)
+  match Rosu.TaikoPre.preprocess (Rosu.PipelineTaiko.preArith ieeeTOps) (Float.ofBits (nat! clock).toUInt64) os with
+  | none => "PRE-FAILED"
+  | some P =>
+    match Rosu.PipelineTaiko.trecOfPre ieeeTOps P bs with
+    | none => "TREC-FAILED"
+    | some recs => SliderEvents.showLong (recs.map showTRec)
+
+/-- `PIPE taiko <bytes> <mods> <rate|-> <take|-> <sum0> <great hit window> <ok hit window>` →
+`R<rhythm> D<reading> C<color> T<stamina> M<mono_stamina_factor> S<stars> X<max_combo> V<is_convert>` -/
+def taikoStarsOfSkills (sum0 : Nat) (rx : Bool) (sk : Rosu.TaikoSkill.Skills Float) : StarsWire.TaikoOut :=
+  let bitsOfPeaks := fun {σ : Type} (st : StateV Float σ) => (exportPeaksV st).map bitsOf
+  StarsWire.taikoEval sum0 rx false (bitsOfPeaks sk.rhythm) (bitsOfPeaks sk.reading)
+    (bitsOfPeaks sk.color) (bitsOfPeaks sk.stamina) (bitsOfPeaks sk.singleColorStamina)
+    (sk.stamina.objectStrains.map bitsOf)
+
+/-- the gradual values of a native taiko file: `stars:max_combo` per `next()` until `None` -/
+def taikoGradual (bytes mods rate sum0 hw : String) : String :=
+  let A := secArith 400.0
+  let custom := if rate == "-" then none else some (hexToNat rate)
+  let rx := (nat! mods) / 128 % 2 == 1
+  match Rosu.DecodeLine.fromBytes (hexBytes bytes) with
+  | none => "-"
+  | some d =>
+    match Rosu.PipelineTaiko.recordsOf ieeeTOps d (fOf (Rosu.PipelineTaiko.clockRateBits (nat! mods) custom)) (nat! mods) with
+    | .ok (hits, recs) =>
+      let vals := Rosu.PipelineTaiko.gradualValues A driverFuel (fOf (hexToNat hw)) hits recs
+      let steps := vals.filterMap fun v =>
+        match v with
+        | .some (mc, .ok sk) => some s!"{StarsWire.showZ (taikoStarsOfSkills (hexToNat sum0) rx sk).stars}:{mc}"
+        | .some (_, _) => some "X"
+        | .none => none
+        | .panic => some "P"
+      SliderEvents.showLong steps
+    | _ => "-"
+
+def handlePIPEtaiko (bytes mods rate take sum0 hw : String) : String :=
+  let A := secArith 400.0
+  let custom := if rate == "-" then none else some (hexToNat rate)
+  let tk := if take == "-" then none else some (nat! take)
+  match Rosu.PipelineTaiko.taikoSkillsOfBytes ieeeTOps A driverFuel (hexBytes bytes) (nat! mods) custom tk (fOf (hexToNat hw)) with
+  | .ioError => "IOERR"
+  | .notTaiko m => s!"NOTTAIKO {m}"
+  | .panic => "PANIC"
+  | .fuel => "FUEL"
+  | .ok (mc, sk) =>
+    let bitsOfPeaks := fun {σ : Type} (st : StateV Float σ) => (exportPeaksV st).map bitsOf
+    let rx := (nat! mods) / 128 % 2 == 1
+    let o := StarsWire.taikoEval (hexToNat sum0) rx false (bitsOfPeaks sk.rhythm) (bitsOfPeaks sk.reading)
+      (bitsOfPeaks sk.color) (bitsOfPeaks sk.stamina) (bitsOfPeaks sk.singleColorStamina)
+      (sk.stamina.objectStrains.map bitsOf)
+    s!"R{StarsWire.showZ o.rhythm} D{StarsWire.showZ o.reading} C{StarsWire.showZ o.color} T{StarsWire.showZ o.stamina} M{StarsWire.showZ o.monoStaminaFactor} S{StarsWire.showZ o.stars} X{mc} V0"
+
+def handlePIPEtaikoG (bytes mods rate take sum0 hw : String) : String :=
+  handlePIPEtaiko bytes mods rate take sum0 hw ++ " G" ++ taikoGradual bytes mods rate sum0 hw
 
 end Rosu.PipelineWire
